@@ -20,7 +20,8 @@ Inductive res :=
 | RForced     (* CancelledError caused by the enclosing move_on_after(0) of aclose_forcefully *)
 | RShutdown   (* CancelledError caused by the enclosing timed scope *)
 | RTimeoutErr (* TimeoutError raised by backend.timeout() (handshake) *)
-| RBusy.      (* BusyResourceError from a ResourceGuard *)
+| RBusy       (* BusyResourceError from a ResourceGuard *)
+| ROther.     (* any other exception (a user callback / parser generator that raises) *)
 
 Record world := {
   w_leaf : nat -> bool;      (* closing flag of leaf transport i *)
@@ -277,6 +278,9 @@ Definition client_task_exit (handler : M) (t : tr) : M := fun e w ls =>
   end.
 
 (* ------------------------------------------------------------------ the close paths *)
+(* finally: <something that raises>: whatever p did, the new exception is what the caller sees *)
+Definition then_raises (p : M) : M := fun e w ls => let '(r, w', ls') := p e w ls in (ROther, w', ls').
+
 Inductive path :=
 | PTransport (t : tr)                 (* transport.aclose() *)
 | PForceful (t : tr)                  (* aclose_forcefully(transport) *)
@@ -285,6 +289,11 @@ Inductive path :=
 | PClient (t : tr)                    (* AsyncTCPNetworkClient.aclose() *)
 | PApi (t : tr)                       (* _ConnectedClientAPI.aclose() *)
 | PTaskExit (t : tr) (inner : bool)   (* client task teardown; inner: the handler called client.aclose() first *)
+| PEndpointDirty (t : tr)             (* AsyncStreamEndpoint.aclose() with a half-received packet whose parser generator
+                                         raises when it is closed:  try: await transport.aclose()  finally: receiver.clear() *)
+| PClientDirty (t : tr)               (* the same through AsyncTCPNetworkClient.aclose() *)
+| PTaskExitCbRaises (t : tr)          (* client task: client_connected_cb raises at call time; the exit stack already
+                                         holds aclose_forcefully(transport) *)
 | PClientConnecting (t : tr).         (* AsyncTCPNetworkClient.aclose() while the connection is still being established by
                                          a send_packet() that holds the send lock: the connector scope is cancelled FIRST,
                                          the attempt is aborted and force-closes its transport, the sender fails and
@@ -292,7 +301,8 @@ Inductive path :=
 
 Definition path_tr (p : path) : tr :=
   match p with
-  | PTransport t | PForceful t | PEndpoint t | PClient t | PApi t | PTaskExit t _ | PClientConnecting t => t
+  | PTransport t | PForceful t | PEndpoint t | PClient t | PApi t | PTaskExit t _ | PClientConnecting t
+  | PEndpointDirty t | PClientDirty t | PTaskExitCbRaises t => t
   | PWrap c b => TTls c b
   end.
 
@@ -306,6 +316,9 @@ Definition run_path (p : path) : M :=
   | PApi t => api_aclose t
   | PTaskExit t inner => client_task_exit (if inner then api_aclose t else (fun _ w ls => (ROk, w, ls))) t
   | PClientConnecting t => forceful (tr_aclose t)
+  | PEndpointDirty t => then_raises (guarded_aclose t)
+  | PClientDirty t => then_raises (client_aclose t)
+  | PTaskExitCbRaises t => client_task_exit (fun _ w ls => (ROther, w, ls)) t
   end.
 
 Definition env0 : env := {| e_forced := false; e_timed := false |}.
